@@ -15,7 +15,7 @@ from checks import common
 
 PID = "C18"
 MENU = ["holidays_fr", "holidays_us", "country_from_coords", "tz_from_coords", "ctx_from_coords", "easter", "plain_shared", "plain_clone",
-        "normalize"]
+        "normalize", "clone_ctx_switch", "clone_locale_switch", "interleave_exprs"]
 
 
 def run_skeleton(skel, jitter):
@@ -23,8 +23,12 @@ def run_skeleton(skel, jitter):
                        stderr=subprocess.PIPE, text=True, timeout=300, env=vlib.clean_env(), cwd=vlib.WORK)
     if p.returncode != 0:
         # a crash of the process under test is data: no event explains it
-        return [{"thread": 0, "seq": 0, "call": skel[0][0], "digest": "PROCESS-CRASH rc=%d %s" % (p.returncode, p.stderr[-200:])}]
-    return [json.loads(l) for l in p.stdout.splitlines() if l.strip()]
+        return [{"thread": 0, "seq": 0, "call": skel[0][0], "consistent": False,
+                 "digest": "PROCESS-CRASH rc=%d %s" % (p.returncode, p.stderr[-200:])}]
+    events = [json.loads(l) for l in p.stdout.splitlines() if l.strip()]
+    for e in events:
+        e["consistent"] = not e["digest"].startswith("INCONSISTENT")
+    return events
 
 
 def run(tier, corrupt=0):
@@ -37,11 +41,14 @@ def run(tier, corrupt=0):
     skeletons.sort(key=json.dumps)
     n = 80 if tier == "quick" else 2500
     c.rng.shuffle(skeletons)
-    chosen = skeletons[:n]
+    crowd = [s for s in skeletons if len(s) >= 8]
+    chosen = crowd + [s for s in skeletons if len(s) < 8][:n]
     # reference: one sequential single-threaded fresh process (twice: repeated calls agree)
     reference = run_skeleton([MENU + MENU], 0)
     ref = {}
     for e in reference:
+        if not e["consistent"]:
+            c.mismatch("a clone under another context / an interleaved expression changed an answer (sequential run): %s" % e["call"], e)
         if e["call"] in ref and ref[e["call"]] != e["digest"]:
             c.mismatch("a repeated sequential call gave another answer: %s" % e["call"], e)
         ref[e["call"]] = e["digest"]
